@@ -1254,7 +1254,15 @@ func (l *Lowerer) buildOverrideInitExpr(expr parser.Expr) ir.OverrideInitExpr {
 				return ir.OverrideInitLiteral{Value: float64(ival)}
 			}
 		}
-		val, err := strconv.ParseFloat(e.Value, 64)
+		// Float literals may carry a type suffix (1.5f, 2h, 1.0lf).
+		text := e.Value
+		for _, suffix := range []string{"lf", "f", "h"} {
+			if strings.HasSuffix(text, suffix) {
+				text = strings.TrimSuffix(text, suffix)
+				break
+			}
+		}
+		val, err := strconv.ParseFloat(text, 64)
 		if err != nil {
 			return nil
 		}
